@@ -18,7 +18,7 @@ RULE = ("random instruction-level programs over the whole classical/array/alloca
         "instruction classes: all four banks, arbitrary jump targets in [0, len], arrays of length 0..8, negative "
         "operands, moduli around 0/1, undefined registers and entries, double alloc / free of unallocated / index == "
         "len, wait_* on entries and slices; histories of 1-5 subroutines against the same application state and two "
-        "applications side by side."
+        "applications side by side; 2 % of the subroutines accumulate values far beyond 32 and 53 bits by repeated doubling and then use addm / subm."
         ' Between returns the host copy of every returned array (all applications, after every subroutine, fault or not) must equal the ret_arr snapshot or the returned list itself. '
         "Non-trivial = the reference run executed >= 8 instructions in some subroutine of "
         "the history and the history was judged to its end; distinct = distinct history description. Histories that "
